@@ -190,11 +190,32 @@ func c03Ops() []c03Call {
 			d.RemoveUser(n.Name)
 			return true, "" // remove reports nothing; only the tree comparison decides
 		}},
+		// the same operations through the package's other exported entry point (store.NewUserHash)
+		{"userhash-add", func(d *store.Dir, n c03Name) (bool, string) {
+			err := store.NewUserHash(d, n.Name).Add("new-password-4", n.Class[0]%2 == 0)
+			return err != nil, fmt.Sprint(err)
+		}},
+		{"userhash-update", func(d *store.Dir, n c03Name) (bool, string) {
+			err := store.NewUserHash(d, n.Name).Update("new-password-5")
+			return err != nil, fmt.Sprint(err)
+		}},
+		{"userhash-set-admin", func(d *store.Dir, n c03Name) (bool, string) {
+			err := store.NewUserHash(d, n.Name).SetAdmin(true)
+			return err != nil, fmt.Sprint(err)
+		}},
+		{"userhash-authenticate", func(d *store.Dir, n c03Name) (bool, string) {
+			ok, _, _, _, err := store.NewUserHash(d, n.Name).Authenticate(n.AuthPw)
+			return !ok, fmt.Sprintf("ok=%v err=%v", ok, err)
+		}},
+		{"userhash-remove", func(d *store.Dir, n c03Name) (bool, string) {
+			store.NewUserHash(d, n.Name).Remove()
+			return true, ""
+		}},
 	}
 }
 
 func c03() {
-	R := vr.New("C03", "snapshot", "hostile user names ('..' segments, absolute paths, names that clean to an existing user, empty, leading - . _ @, NUL/control bytes, > NAME_MAX, percent-encoded, non-ASCII look-alikes, special characters) x the store entry points add/update/set-admin/exists/authenticate/remove on a sandbox root/{base,sibling store,decoys}; whole-tree snapshots (type, mode, inode, content) before/after each call; planted files with invalid names and valid hashes; control group of valid names that must keep working. Non-trivial: every (name, operation) pair with a grammar-violating name; distinct by (name, op)")
+	R := vr.New("C03", "snapshot", "hostile user names ('..' segments, absolute paths, names that clean to an existing user, empty, leading - . _ @, NUL/control bytes, > NAME_MAX, percent-encoded, non-ASCII look-alikes, special characters) x the store entry points add/update/set-admin/exists/authenticate/remove (Dir methods and the exported UserHash methods) on a sandbox root/{base,sibling store,decoys}; whole-tree snapshots (type, mode, inode, content) before/after each call; planted files with invalid names and valid hashes; control group of valid names that must keep working. Non-trivial: every (name, operation) pair with a grammar-violating name; distinct by (name, op)")
 	defer R.Write()
 	rng := R.Rand("c03")
 	root := filepath.Join(workDir(), "c03", "root")
@@ -297,6 +318,54 @@ func c03() {
 		}
 	}
 	c03Planted(R, rng)
+	// hash files (valid names) that are symbolic links to files outside the base directory: operations on such a
+	// user may read through the link and may replace / rename / remove the LINK, never the object it points to
+	for _, tg := range []struct{ name, ext, target, pw string }{
+		{"linked", ".user", filepath.Join(b.sibling, "victim.user"), c03Pw("victim")},
+		{"linkadm", ".admin", filepath.Join(b.sibling, "root.admin"), c03Pw("root")},
+		{"linktop", ".user", filepath.Join(root, "top.user"), c03Pw("top")},
+	} {
+		for _, opn := range []string{"authenticate", "update", "set-admin", "remove", "update-then-remove"} {
+			if b, err = c03Build(rng, root); err != nil {
+				R.Fatal = "sandbox rebuild: " + err.Error()
+				return
+			}
+			link := filepath.Join(b.base, tg.name+tg.ext)
+			os.Symlink(tg.target, link) //nolint:errcheck
+			before := ref.TakeSnap(root)
+			pan := vr.Safe(func() {
+				switch opn {
+				case "authenticate":
+					b.d.Authenticate(tg.name, tg.pw) //nolint:errcheck
+				case "update":
+					b.d.UpdateUser(tg.name, "new-pw-through-link") //nolint:errcheck
+				case "set-admin":
+					b.d.SetAdmin(tg.name, tg.ext == ".user") //nolint:errcheck
+				case "remove":
+					b.d.RemoveUser(tg.name)
+				case "update-then-remove":
+					b.d.UpdateUser(tg.name, "new-pw-through-link") //nolint:errcheck
+					b.d.RemoveUser(tg.name)
+				}
+			})
+			var outside []string
+			for _, l := range ref.Diff(before, ref.TakeSnap(root), ref.DiffOpts{Inode: true}) {
+				f := strings.Fields(l)
+				if len(f) >= 2 && !strings.HasPrefix(f[1], "base/") && f[1] != "base" {
+					outside = append(outside, l)
+				}
+			}
+			id := "symlinked-hash-file/" + tg.name + "/" + opn
+			R.Case("symlink\x00"+tg.name+"\x00"+opn, true)
+			R.Count("symlinked_hash_file_calls", 1)
+			if pan != "" {
+				R.Violate("c03:panic:symlinked-hash-file:"+opn, pan, id, nil)
+			}
+			if len(outside) > 0 {
+				R.Violate("c03:object-outside-base-changed-through-symlinked-hash-file:"+opn, fmt.Sprintf("%s of user %s, whose hash file is a link to %s, changed objects outside the base directory: %v", opn, tg.name, tg.target, outside), id, map[string]any{"link": link, "target": tg.target, "changes": outside})
+			}
+		}
+	}
 }
 
 // c03Planted: files with invalid names but valid hashes planted in a store.
